@@ -358,6 +358,26 @@ fn ec_one(path: &[(autosar_data::ElementName, autosar_data_specification::Elemen
             }
         }
     }
+    // copy a child into its own parent without a position: allowed exactly when another one may be created, and lands at the range end
+    {
+        let kids_now: Vec<Element> = cur.sub_elements().collect();
+        let copyable: Vec<&Element> = kids_now.iter().filter(|c| c.element_name() != ElementName::ShortName).collect();
+        if !copyable.is_empty() && rng.below(2) == 0 {
+            let c = copyable[rng.below(copyable.len())];
+            let n = c.element_name();
+            let range = cur.calc_element_insert_range(n, v);
+            let before: Vec<ElementName> = cur.sub_elements().map(|e| e.element_name()).collect();
+            let r = cur.create_copied_sub_element(c);
+            stats[2] += 1;
+            let after: Vec<ElementName> = cur.sub_elements().map(|e| e.element_name()).collect();
+            match (&r, &range) {
+                (Ok(_), Err(_)) => return Err(format!("create_copied_sub_element({}) into its own parent succeeded although calc_element_insert_range refuses another {} [parent {} children {:?}]", n, n, cur.element_name(), before)),
+                (Err(e), Ok(_)) => return Err(format!("create_copied_sub_element({}) into its own parent failed ({}) although calc_element_insert_range allows another {} [parent {} children {:?}]", n, e, n, cur.element_name(), before)),
+                (Ok(_), Ok((_, hi))) => { let mut want = before.clone(); want.insert(*hi, n); if after != want { return Err(format!("after create_copied_sub_element({}) into its own parent the children are {:?}, expected {:?}", n, after, want)); } }
+                (Err(_), Err(_)) => { if after != before { return Err(format!("a refused create_copied_sub_element({}) changed the children", n)); } }
+            }
+        }
+    }
     // copy the whole element into a file of another version: whatever arrives must be permitted there
     if path.len() >= 2 && rng.below(3) == 0 {
         let others = autosar_data_specification::expand_version_mask(u32::MAX);
